@@ -256,7 +256,6 @@ type snapshot struct {
 	stored  []storedRec
 	byId    map[string][]byte
 	entry   string
-	stHeads []string
 	rootId  string
 }
 
@@ -268,7 +267,7 @@ func (s *snapshot) render() string {
 	for _, r := range s.stored {
 		fmt.Fprintf(&b, "  %s order=%q snap=%s counter=%d prev=%v sum=%x\n", r.Id, r.Order, r.Snap, r.Counter, r.Prev, r.Sum[:6])
 	}
-	fmt.Fprintf(&b, "heads-entry: %s\nstorage-heads: %s\n", s.entry, strings.Join(s.stHeads, ","))
+	fmt.Fprintf(&b, "heads-entry: %s\n", s.entry)
 	return b.String()
 }
 
@@ -302,10 +301,6 @@ func (h *H) observe() (*snapshot, error) {
 		return nil, fmt.Errorf("heads entry: %w", err)
 	}
 	s.entry = fmt.Sprintf("heads=%v common=%s deleted=%d derived=%v parent=%q seq=%d", e.Heads, e.CommonSnapshot, e.DeletedStatus, e.IsDerived, e.ParentId, e.LastAddSeq)
-	s.stHeads, err = h.tree.Storage().Heads(ctx)
-	if err != nil {
-		return nil, fmt.Errorf("storage heads: %w", err)
-	}
 	return s, nil
 }
 
